@@ -506,8 +506,16 @@ def _await_descriptor_upload(tor_protocol, onion, progress, await_all_uploads):
     # the first 'yield' should be the add_event_listener so that a
     # caller can do "d = _await_descriptor_upload()", then add the
     # service.
+    def connection_lost(reason):
+        # no more events can arrive, so this is the end of the wait
+        if not uploaded.called:
+            uploaded.errback(reason)
+
     try:
         yield tor_protocol.add_event_listener('HS_DESC', hs_desc)
+        when_disconnected = getattr(tor_protocol, 'when_disconnected', None)
+        if when_disconnected is not None:
+            when_disconnected().addBoth(connection_lost)
         yield uploaded
     except Exception:
         # we are done listening on failure (or when the wait is
